@@ -106,6 +106,8 @@ type Exec struct {
 	nowSeq    int
 	lastNow   *Term
 	goroutine int
+	gids      []int
+	gidNext   int
 	stack     []*ssa.Function
 	spec      int
 
